@@ -173,7 +173,7 @@ func TestVerifC14(t *testing.T) {
 			scs = append(scs, schedItem{Scen{Graph: g, Pair: p, Opt: "default", Feat: "full", Pre: "empty"}, b, false})
 		}
 	}
-	for _, g := range []string{"G3", "G5", "G6", "G15", "G18"} {
+	for _, g := range []string{"G3", "G5", "G6", "G15", "G18", "G19", "G20", "G7", "G8"} {
 		for _, p := range []string{"two-reg", "same-reg-refuse", "same-reg-grant"} {
 			for _, pre := range []string{"empty", halfMask(g)} {
 				b := 1
